@@ -701,6 +701,11 @@ func cmdCheck(args []string) int {
 	for _, l := range lines {
 		fmt.Println(l)
 	}
+	for _, ia := range inapplicable {
+		// not a violation (a refactoring that renames what a contract refers to is not a property change), but the
+		// function is no longer verified: say so where it is seen
+		fmt.Printf("INAPPLICABLE: property=%s %s\n", prop, ia)
+	}
 	fmt.Printf("govc: property=%s tier=%s functions=%d obligations=%d discharged=%d known=%d violations=%d inapplicable=%d solver=%.1fs wall=%.1fs\n",
 		prop, *tier, len(funcsUnder), len(obls), discharged, knownHit, violations, len(inapplicable), float64(solverMs)/1000, time.Since(t0).Seconds())
 	for _, ia := range inapplicable {
